@@ -12,7 +12,9 @@
     model's coordinate parser as the same rational (coordinates are opaque tokens at this level;
     the float printing/parsing of the implementation is validated by `rt`, not proved);
   * `PlainVer ver`: the version token has no `#` and does not start with `[`;
-  * `m.n ≤ 2^32`: dart ids are `u32`.
+  * `m.n ≤ 2^32`: dart ids are `u32`;
+  * `m.unused 0 = false`: the null dart is not flagged as removed (the validating loader rejects
+    the id 0 in `[UNUSED]`, while `serialize` prints it when the flag is set).
   The numeral round trip `parseU32 (natTok v) = some v` is proved (`parseU32_natTok`).
 -/
 import Honeycomb.Lemmas.CmapText
@@ -50,8 +52,25 @@ theorem vertexLines_eq (m : Map Val) : ∀ (l : List Nat),
         List.map_cons, e1, e2]
       rw [ih]
 
+theorem getD_map_range' (f : Nat → Nat) (n e : Nat) :
+    ((List.range' 0 n).map f).getD e 0 = if e < n then f e else 0 := by
+  by_cases h : e < n
+  · simp [List.getD_eq_getElem?_getD, h]
+  · simp [List.getD_eq_getElem?_getD, h]
+
+theorem mem_iterVertices2_props {m : Map Val} {v : Nat} (h : v ∈ iterVertices2 m) :
+    v ≠ 0 ∧ m.unused v = false := by
+  unfold iterVertices2 iterCells at h
+  have := (List.mem_filter.mp h).2
+  simp only [decide_eq_true_eq] at this
+  exact ⟨this.1, by simpa using this.2.1⟩
+
+/-- **C09** (token level).  The hypothesis `m.unused 0 = false` is needed since the loader fix
+    7170072: `serialize` prints the null dart in `[UNUSED]` when its flag is set (reachable with
+    `remove_free_dart(0)`), and the validating loader rejects the id 0 there. -/
 theorem C09_roundtrip (ver : String) (hver : PlainVer ver) (ns : Nat) (hns : 0 < ns)
-    (m : Map Val) (hwf : WF 3 m) (h32 : m.n ≤ u32Bound) (hc : CoordsPrintable m) :
+    (m : Map Val) (hwf : WF 3 m) (hu0 : m.unused 0 = false) (h32 : m.n ≤ u32Bound)
+    (hc : CoordsPrintable m) :
     ∃ m', load ns (serialize ver m) = .ok m' ∧ m'.n = m.n ∧
       (∀ i, i < 3 → ∀ d, m'.β i d = m.β i d) ∧ (∀ d, m'.unused d = m.unused d) ∧
       (∀ v ∈ iterVertices2 m, m'.att 0 v = m.att 0 v) ∧ serialize ver m' = serialize ver m := by
@@ -106,16 +125,58 @@ theorem C09_roundtrip (ver : String) (hver : PlainVer ver) (ns : Nat) (hns : 0 <
   -- stage 1: the section parser
   have hparse := parseFile_serialize hver m hn (by unfold usizeBound; unfold u32Bound at h32; omega)
     _ hdata
-  -- stage 2: the β loop
+  -- stage 2: every image is parsed; the table is β
+  have hrows := parseRows_ok (fun i e => natTok (m.β i e)) (fun i e => m.β i e) m.n 0
+    (fun i hi e _ he => parseU32_natTok (by
+      have := hwf.range i hi e (by omega)
+      omega))
+  have hbl : ∀ i, betaLine m i = (List.range' 0 m.n).map (fun e => natTok (m.β i e)) := by
+    intro i; unfold betaLine; rw [List.range_eq_range']
+  have hT : tbl ((List.range' 0 m.n).map (fun e => m.β 0 e), (List.range' 0 m.n).map (fun e => m.β 1 e),
+      (List.range' 0 m.n).map (fun e => m.β 2 e)) = fun i e => m.β i e := by
+    funext i e
+    have hoob : ∀ j, ¬ e < m.n → m.β j e = 0 := fun j h => β_oob hs (fun c => h c.2)
+    match i with
+    | 0 => show ((List.range' 0 m.n).map _).getD e 0 = _; rw [getD_map_range']; split <;> simp_all
+    | 1 => show ((List.range' 0 m.n).map _).getD e 0 = _; rw [getD_map_range']; split <;> simp_all
+    | 2 => show ((List.range' 0 m.n).map _).getD e 0 = _; rw [getD_map_range']; split <;> simp_all
+    | (k + 3) => show 0 = _; rw [β_oob hs (by omega)]
+  have hnull : nullOK (fun i e => m.β i e) = true := by
+    simp [nullOK, hwf.null 0 (by omega), hwf.null 1 (by omega), hwf.null 2 (by omega)]
+  have hrange : rangeOK (fun i e => m.β i e) (m.n - 1 + 1) = true := by
+    unfold rangeOK
+    rw [List.all_eq_true]
+    intro d hd
+    have hd' : d < m.n := by have := List.mem_range.mp hd; omega
+    have r0 := hwf.range 0 (by omega) d hd'
+    have r1 := hwf.range 1 (by omega) d hd'
+    have r2 := hwf.range 2 (by omega) d hd'
+    simp only [Bool.and_eq_true, decide_eq_true_eq]
+    omega
+  have hchk : (List.range' 1 (m.n - 1)).findSome? (dartCheck fun i e => m.β i e) = none := by
+    rw [List.findSome?_eq_none_iff]
+    intro d hd
+    have hd' : d < m.n := by have := List.mem_range'_1.mp hd; omega
+    unfold dartCheck
+    have c1 : ¬ ((m.β 1 d ≠ 0 ∧ m.β 0 (m.β 1 d) ≠ d) ∨ (m.β 0 d ≠ 0 ∧ m.β 1 (m.β 0 d) ≠ d)) := by
+      intro h
+      rcases h with ⟨a, b⟩ | ⟨a, b⟩
+      · exact b (hwf.inv01 d hd' a)
+      · exact b (hwf.inv10 d hd' a)
+    have c2 : ¬ (m.β 2 d ≠ 0 ∧ (m.β 2 (m.β 2 d) ≠ d ∨ m.β 2 d = d)) := by
+      intro h
+      have := hwf.invol 2 (by omega) (by omega) d hd' h.1
+      rcases h.2 with b | b
+      · exact b this.1
+      · exact this.2 b
+    rw [if_neg c1, if_neg c2]
+  -- stage 3: the β loop
   have hsz0 : Sized 3 (Map.empty 3 ns (m.n - 1 + 1) : Map Val) := sized_empty ns _ (by omega)
   have hn0 : (Map.empty 3 ns (m.n - 1 + 1) : Map Val).n = m.n := by
     show m.n - 1 + 1 = m.n; omega
   obtain ⟨m1, hrun1, hs1, hn1, hu1, ha1, hβ1⟩ :=
-    betasLoop_ok (fun i e => natTok (m.β i e)) (fun i e => m.β i e) (m.n - 1) 1
-      (Map.empty 3 ns (m.n - 1 + 1)) hsz0 (by rw [hn0]; omega)
-      (fun i hi e _ he => parseU32_natTok (by
-        have := hwf.range i hi e (by omega)
-        omega))
+    setLoop_ok (fun i e => m.β i e) (m.n - 1) 1 (Map.empty 3 ns (m.n - 1 + 1)) hsz0
+      (by rw [hn0]; omega)
   have hn1' : m1.n = m.n := hn1.trans hn0
   have hβ1' : ∀ i, i < 3 → ∀ d, d < m.n → m1.β i d = m.β i d := by
     intro i hi d hd
@@ -125,7 +186,7 @@ theorem C09_roundtrip (ver : String) (hver : PlainVer ver) (ns : Nat) (hns : 0 <
       simp [β_empty, hwf.null i hi]
     · have : i < 3 ∧ 1 ≤ d ∧ d < 1 + (m.n - 1) := by omega
       simp [this]
-  -- stage 3: the unused loop
+  -- stage 4: the unused loop
   let ids := (List.range m.u.size).filter fun d => m.unused d
   have hids : ∀ d ∈ ids, d < m.n ∧ m.unused d = true := by
     intro d hd
@@ -137,7 +198,10 @@ theorem C09_roundtrip (ver : String) (hver : PlainVer ver) (ns : Nat) (hns : 0 <
       (List.Nodup.sublist List.filter_sublist List.nodup_range) hs1
       (fun d hd => by
         obtain ⟨hdn, hdu⟩ := hids d hd
-        refine ⟨by rw [hn1']; exact hdn, ?_, ?_⟩
+        have hd0 : d ≠ 0 := by
+          intro e; subst e; rw [hu0] at hdu; cases hdu
+        have hdn1 : d < m1.n := by rw [hn1']; exact hdn
+        refine ⟨hd0, hdn1, ?_, ?_⟩
         · rw [isFree3, hβ1' 0 (by omega) d hdn, hβ1' 1 (by omega) d hdn, hβ1' 2 (by omega) d hdn,
             hwf.unusedFree d hdn hdu 0 (by omega), hwf.unusedFree d hdn hdu 1 (by omega),
             hwf.unusedFree d hdn hdu 2 (by omega)]
@@ -162,7 +226,7 @@ theorem C09_roundtrip (ver : String) (hver : PlainVer ver) (ns : Nat) (hns : 0 <
         simp [this]
     · have : d ∉ ids := fun h => hd (hids d h).1
       simp [this, unused_oob hs hd]
-  -- stage 4: the vertices loop
+  -- stage 5: the vertices loop
   have ha0 : 0 < m2.a.size := by rw [ha2, ha1, size_a_empty]; exact hns
   obtain ⟨m3, hrun3, hs3, _, hn3, hb3, hu3, ha3⟩ :=
     verticesLoop_ok natTok (fun v => ratStr (fx m v)) (fun v => ratStr (fy m v)) (fx m) (fy m) vs m2
@@ -170,7 +234,9 @@ theorem C09_roundtrip (ver : String) (hver : PlainVer ver) (ns : Nat) (hns : 0 <
       (fun v hv => by
         obtain ⟨_, p1, p2, _, _⟩ := hfx v hv
         have hvn := mem_iterVertices2_lt (hvs v hv).1
-        exact ⟨by rw [hn2, hn1']; exact hvn, parseU32_natTok (by omega), p1, p2⟩)
+        obtain ⟨hv0, hvu⟩ := mem_iterVertices2_props (hvs v hv).1
+        exact ⟨hv0, by rw [hn2, hn1']; exact hvn, by rw [hu2']; exact hvu,
+          parseU32_natTok (by omega), p1, p2⟩)
   have hn3' : m3.n = m.n := hn3.trans (hn2.trans hn1')
   have hβ3 : ∀ i d, m3.β i d = m1.β i d := by
     intro i d
@@ -201,11 +267,14 @@ theorem C09_roundtrip (ver : String) (hver : PlainVer ver) (ns : Nat) (hns : 0 <
   · -- load
     unfold load serialize
     rw [hparse]
-    refine build_of_stages rfl rfl (by rw [length_betaLine]; show m.n = m.n - 1 + 1; omega)
+    refine build_of_stages (rows := _) rfl rfl (by rw [length_betaLine]; show m.n = m.n - 1 + 1; omega)
       (by rw [length_betaLine]; show m.n = m.n - 1 + 1; omega)
-      (by rw [length_betaLine]; show m.n = m.n - 1 + 1; omega) (m1 := m1) (m2 := m2) ?_ ?_ ?_
-    · rw [drop_betaLine, drop_betaLine, drop_betaLine]
-      exact hrun1
+      (by rw [length_betaLine]; show m.n = m.n - 1 + 1; omega) (m1 := m1) (m2 := m2)
+      (by rw [hbl 0, hbl 1, hbl 2]; exact hrows) ?_ ?_ ?_ ?_ ?_ ?_
+    · rw [hT]; exact hnull
+    · rw [hT]; exact hrange
+    · rw [hT]; exact hchk
+    · rw [hT]; exact hrun1
     · have : ((some (if unusedLine m = [] then [] else [unusedLine m]) : Option (List Line)).getD []).flatten
           = ids.map natTok := by
         show (if unusedLine m = [] then [] else [unusedLine m]).flatten = unusedLine m
@@ -218,7 +287,7 @@ theorem C09_roundtrip (ver : String) (hver : PlainVer ver) (ns : Nat) (hns : 0 <
       rw [hV]
       exact hrun3
   · -- the second serialization
-    have hbl : ∀ i, betaLine m3 i = betaLine m i := by
+    have hbl' : ∀ i, betaLine m3 i = betaLine m i := by
       intro i
       unfold betaLine
       rw [hn3']
@@ -241,7 +310,7 @@ theorem C09_roundtrip (ver : String) (hver : PlainVer ver) (ns : Nat) (hns : 0 <
       unfold vertexLine
       rw [hatt v hv]
     unfold serialize
-    rw [hn3', hbl 0, hbl 1, hbl 2, hul, hvl]
+    rw [hn3', hbl' 0, hbl' 1, hbl' 2, hul, hvl]
 
 /-- the printed vertices are 2-D points whose coordinates have numerators and denominators of
     at most 18 digits (the range of the harness' exact notation) -/
@@ -261,11 +330,12 @@ theorem C09_coordsPrintable_of_small {m : Map Val} (h : SmallCoords m) : CoordsP
 /-- the round trip with no assumption on tokens: every well-formed 2-map with fewer than 2^32
     darts and 18-digit rational coordinates -/
 theorem C09_roundtrip_small (ver : String) (hver : PlainVer ver) (ns : Nat) (hns : 0 < ns)
-    (m : Map Val) (hwf : WF 3 m) (h32 : m.n ≤ u32Bound) (hc : SmallCoords m) :
+    (m : Map Val) (hwf : WF 3 m) (hu0 : m.unused 0 = false) (h32 : m.n ≤ u32Bound)
+    (hc : SmallCoords m) :
     ∃ m', load ns (serialize ver m) = .ok m' ∧ m'.n = m.n ∧
       (∀ i, i < 3 → ∀ d, m'.β i d = m.β i d) ∧ (∀ d, m'.unused d = m.unused d) ∧
       (∀ v ∈ iterVertices2 m, m'.att 0 v = m.att 0 v) ∧ serialize ver m' = serialize ver m :=
-  C09_roundtrip ver hver ns hns m hwf h32 (C09_coordsPrintable_of_small hc)
+  C09_roundtrip ver hver ns hns m hwf hu0 h32 (C09_coordsPrintable_of_small hc)
 
 /-! ## non-vacuity: a 5-dart map with an open β1 path, a β2 pair, a removed dart, defined and
     undefined vertices, a value on a non-vertex id (2 is a vertex here; 5 is removed and holds a
@@ -305,6 +375,7 @@ example : ∃ m', load 1 (serialize pkgVersion exMap) = .ok m' ∧ m'.n = exMap.
     (∀ i, i < 3 → ∀ d, m'.β i d = exMap.β i d) ∧ (∀ d, m'.unused d = exMap.unused d) ∧
     (∀ v ∈ iterVertices2 exMap, m'.att 0 v = exMap.att 0 v) ∧
     serialize pkgVersion m' = serialize pkgVersion exMap :=
-  C09_roundtrip pkgVersion plainVer_pkgVersion 1 (by decide) exMap exMap_wf (by decide) exMap_printable
+  C09_roundtrip pkgVersion plainVer_pkgVersion 1 (by decide) exMap exMap_wf (by decide) (by decide)
+    exMap_printable
 
 end HC.C09
